@@ -891,14 +891,15 @@ theorem assignLoop_skipAll (o : Opt) (scr : List Hash) (glob : Hash → St) :
           · exact hrest
 
 /-- with relief off and every unscraped discovered target unplaceable, the assignment stage does nothing -/
-theorem assign_nothing (sc : Sched) (inp : Input) (hun : C04.onlyTooBigUnscraped inp = true) :
-    assign inp.opt inp.active (globalOf (infos0 inp) inp.explore) sc (startCS inp) = (startCS inp, sc.picks, {}) := by
+theorem assign_nothing' (sc : Sched) (inp : Input) (hun : C04.onlyTooBigUnscraped inp = true)
+    (c0 : CS) (hc0 : ProvInv inp c0) :
+    assign inp.opt inp.active (globalOf (infos0 inp) inp.explore) sc c0 = (c0, sc.picks, {}) := by
   unfold assign
   apply assignLoop_skipAll
   intro h hm
   rw [mem_uniq, List.mem_filter] at hm
   have ha : h ∈ inp.active := by simpa using hm.2
-  cases hc : (scrapingSetOf (startCS inp).shards).contains h with
+  cases hc : (scrapingSetOf c0.shards).contains h with
   | true => exact Or.inl rfl
   | false =>
     right
@@ -915,7 +916,7 @@ theorem assign_nothing (sc : Sched) (inp : Input) (hun : C04.onlyTooBigUnscraped
           | false => simp [hh] at hf
         obtain ⟨p, hpm, hr⟩ := List.any_eq_true.mp hany
         obtain ⟨x, hx⟩ := List.getElem?_of_mem hpm
-        obtain ⟨y, sy, hy, hgy⟩ := (provInv_start inp).kept x p h hx hr ha
+        obtain ⟨y, sy, hy, hgy⟩ := hc0.kept x p h hx hr ha
         cases hg : sy.scraping.get h with
         | none => exact hgy hg
         | some v =>
@@ -948,6 +949,10 @@ theorem assign_nothing (sc : Sched) (inp : Input) (hun : C04.onlyTooBigUnscraped
         rcases hh with ⟨h1, h2⟩ | h3
         · exact Or.inl ⟨h1, h2⟩
         · exact Or.inr (Or.inr h3)
+
+theorem assign_nothing (sc : Sched) (inp : Input) (hun : C04.onlyTooBigUnscraped inp = true) :
+    assign inp.opt inp.active (globalOf (infos0 inp) inp.explore) sc (startCS inp) = (startCS inp, sc.picks, {}) :=
+  assign_nothing' sc inp hun (startCS inp) (provInv_start inp)
 
 end Kvass.Coord
 
